@@ -21,6 +21,8 @@ def main():
     sys.dont_write_bytecode = True
     logging.disable(logging.CRITICAL)
     job = json.load(sys.stdin)
+    real_stdout = sys.stdout
+    sys.stdout = io.StringIO()        # some back ends print debugging text
     keep = []
     from ppci import api
     from ppci.binutils.objectfile import serialize
@@ -33,6 +35,45 @@ def main():
     out = {}
     for j in job.get('jobs', []):
         try:
+            be = j.get('backend')
+            if be in ('wasm', 'python', 'irtext'):
+                # other outputs of the same pipeline: wasm binary, generated python text, optimized IR text
+                m = api.c_to_ir(io.StringIO(j['src']), j['march'])
+                api.optimize(m, level=j['opt'])
+                if be == 'wasm':
+                    from ppci.wasm import ir_to_wasm
+                    text = ir_to_wasm(m).to_bytes().hex()
+                elif be == 'python':
+                    f = io.StringIO()
+                    api.ir_to_python([m], f)
+                    # the first line is a wall-clock stamp ("# Automatically generated on <ctime>"): deliberate,
+                    # not a function of hash seed / process / history, so it is excluded from the comparison
+                    text = '\n'.join(l for l in f.getvalue().split('\n')
+                                     if not l.startswith('# Automatically generated on '))
+                else:
+                    from ppci import irutils
+                    f = io.StringIO()
+                    irutils.Writer(f).write(m)
+                    text = f.getvalue()
+                out[j['id']] = {'sha': hashlib.sha256(text.encode()).hexdigest(), 'n': len(text)}
+                if job.get('dump') == j['id']:
+                    out[j['id']]['text'] = text
+                continue
+            if be == 'burg':
+                import os
+                import tempfile
+                from ppci.codegen import burg
+                fd, tmp = tempfile.mkstemp(suffix='.py')
+                os.close(fd)
+                args = burg.make_argument_parser().parse_args([j['src'], '-o', tmp])
+                burg.main(args)
+                args.output.close()
+                text = open(tmp).read()
+                os.unlink(tmp)
+                out[j['id']] = {'sha': hashlib.sha256(text.encode()).hexdigest(), 'n': len(text)}
+                if job.get('dump') == j['id']:
+                    out[j['id']]['text'] = text
+                continue
             if j['lang'] == 'c':
                 obj = api.cc(io.StringIO(j['src']), j['march'], opt_level=j['opt'], debug=j.get('debug', False))
             else:
@@ -56,7 +97,7 @@ def main():
                 out['ir:' + j['id']]['text'] = text
         except Exception as ex:   # noqa: BLE001
             out['ir:' + j['id']] = {'error': '%s: %s' % (type(ex).__name__, str(ex)[:200])}
-    json.dump(out, sys.stdout)
+    json.dump(out, real_stdout)
 
 
 if __name__ == '__main__':
